@@ -18,10 +18,15 @@ Objects carry a creation number so that `parent` (= the object on top of
 `parser._inst_stack` when the rule node was processed) is a value of the model
 and not a property of the representation.
 
-`c03` is set when an abstract rule node has several children and a child
-produced by a *match* rule stands before the first object: `model.py:620`
-picks that child on the pinned tree and skips it after the C03 repair; the
-harness does not compare such cases (they belong to C03).
+Abstract rule nodes follow the code after the C03 repair (the first child whose
+class is not a match rule; when only match rules are referenced, the first
+non-Terminal; else the concatenation).  `c03` is set when a child produced by a
+*match* rule stands before the first object, where the pinned code picked that
+child (evidence only).
+
+Separator children of a list assignment are told by the *identity* of the
+parsing expression that made them (`n.rule is node.rule.sep`, here: the table
+index), as the code does since the C02 repair — not by the rule name `sep`.
 -/
 namespace Tx
 open Peg
@@ -178,6 +183,18 @@ def valRule (x : BCtx) : Val → String
   | .term id _ _ | .nt id _ => ((x.node? id).map (·.node.rule)).getD ""
   | _ => ""
 
+/-- the parsing expression that made a parse-tree node (`n.rule`, an object: here its table index) -/
+def valId : Val → Option Nat
+  | .term id _ _ | .nt id _ => some id
+  | _ => none
+
+/-- `not (sep_rule is None or n.rule is not sep_rule)`: the child was made by the separator match
+of this assignment's repeat modifiers (told by identity, not by the rule name `sep` nor by place) -/
+def isSepKid (sep : Option Nat) (k : Val) : Bool :=
+  match sep, valId k with
+  | some s, some id => id == s
+  | _, _ => false
+
 abbrev BRes (α : Type) := Except BErr (α × BSt)
 
 mutual
@@ -226,16 +243,18 @@ def processNode (x : BCtx) : Nat → Val → Option Nat → BSt → BRes Value
           | [] => .error .indexError               -- `process_node(node[0])`
           | [k] => processNode x f k top st
           | ks =>
-            -- first non-Terminal child (pinned: any; repaired C03: one whose class is not a match rule)
+            -- the first non-Terminal child whose class is not a match rule (the code after the C03 repair;
+            -- `c03` records that the pinned code, which took the first non-Terminal, would differ)
             let firstNT := ks.find? (fun k => !isTerm k)
             let firstObj := ks.find? (fun k => !isTerm k && x.kindOf (valRule x k) != .match_)
             let st := match firstNT with
               | some k => if x.kindOf (valRule x k) == .match_ then { st with c03 := true } else st
               | none => st
-            match firstObj with
-            | some k => processNode x f k top st
-            | none =>
-              -- "All nodes are match rules, do concatenation": ''.join(str(n) for n in node)
+            match firstObj, firstNT with
+            | some k, _ => processNode x f k top st
+            | none, some k => processNode x f k top st     -- "Only match rules are referenced."
+            | none, none =>
+              -- "All nodes are simple matches, do concatenation": ''.join(str(n) for n in node)
               .ok (.prim (.str (String.join (ks.map fun k => match k with
                 | .term tid pos len => ((x.node? tid).map fun tn => x.termText tn pos len).getD ""
                 | _ => ""))), st)
@@ -283,7 +302,7 @@ def processKids (x : BCtx) : Nat → List Val → Nat → List (String × Value)
               | .list vs => .ok (setAttrV attrs name (.list (vs ++ [v])), st)
               | _ => .ok (setAttrV attrs name v, st)
           | _, _ => .error (.bad "plain assignment")
-        else processList x f aks me name attrs st
+        else processList x f aks nd.node.sep me name attrs st
       match r with
       | .error e => .error e
       | .ok (attrs, st) => processKids x f ks me attrs st
@@ -292,19 +311,20 @@ def processKids (x : BCtx) : Nat → List Val → Nat → List (String × Value)
       | .error e => .error e
       | .ok (_, st) => processKids x f ks me attrs st
 
-/-- `op in ["list", "oneormore", "zeroormore"]`: append every non-separator child -/
-def processList (x : BCtx) : Nat → List Val → Nat → String → List (String × Value) → BSt →
+/-- `op in ["list", "oneormore", "zeroormore"]`: append every child that was not made by the separator
+match `sep` of this assignment node (`node.rule.sep`) -/
+def processList (x : BCtx) : Nat → List Val → Option Nat → Nat → String → List (String × Value) → BSt →
     BRes (List (String × Value))
-  | 0, _, _, _, _, _ => .error .fuel
-  | _+1, [], _, _, attrs, st => .ok (attrs, st)
-  | f+1, k :: ks, me, name, attrs, st =>
-    if valRule x k == "sep" then processList x f ks me name attrs st else
+  | 0, _, _, _, _, _, _ => .error .fuel
+  | _+1, [], _, _, _, attrs, st => .ok (attrs, st)
+  | f+1, k :: ks, sep, me, name, attrs, st =>
+    if isSepKid sep k then processList x f ks sep me name attrs st else
     match processNode x f k (some me) st with
     | .error e => .error e
     | .ok (v, st) =>
       match getAttr attrs name with
-      | some (.list vs) => processList x f ks me name (setAttrV attrs name (.list (vs ++ [v]))) st
-      | some (.prim .none) | none => processList x f ks me name (setAttrV attrs name (.list [v])) st
+      | some (.list vs) => processList x f ks sep me name (setAttrV attrs name (.list (vs ++ [v]))) st
+      | some (.prim .none) | none => processList x f ks sep me name (setAttrV attrs name (.list [v])) st
       | _ => .error (.bad "list assignment to a scalar")
 end
 
